@@ -182,7 +182,150 @@ def run(spec):
     return {'nontrivial': nontrivial, 'labels': labels}
 
 
-FAMILIES = [Family('cross-currency', case, run, quick=320, thorough=10000)]
+# ---------------------------------------------------------------------------------------------------
+# Interleaved construction: countries, the external sector, plain sectors, cross-currency flows and direct gold purchases
+# are created in ONE generated order (a country may join a currency that already has bookings; the external sector may
+# appear anywhere before its first use).  Oracle: the FX intermediary's books balance in every period and every zone is
+# stock-flow consistent once the FX position is counted.
+CURS = ['EUR', 'USD', 'GBP']
+
+
+@st.composite
+def interleaved_case(draw):
+    K = draw(st.integers(2, 4))
+    ops = []
+    countries = []       # currency per country index
+    sectors = []         # country index per sector index
+    have_ext = False
+    n_ops = draw(st.integers(8, gen.size(16, 26)))
+    flows = 0
+    for i in range(n_ops):
+        choices = ['country', 'sector', 'sector']
+        if not have_ext:
+            choices.append('ext')
+        if len(sectors) >= 2:
+            choices += ['flow', 'flow', 'flow', 'flow']
+        if have_ext and sectors:
+            choices += ['gold']
+        kind = draw(st.sampled_from(choices))
+        if not countries:
+            kind = draw(st.sampled_from(['country', 'country', 'ext'])) if not have_ext else 'country'
+        elif not sectors and kind in ('flow', 'gold'):
+            kind = 'sector'
+        if kind == 'ext':
+            ops.append(['ext'])
+            have_ext = True
+        elif kind == 'country':
+            if len(countries) >= 5:
+                continue
+            cur = draw(st.sampled_from([CURS[len(countries) % 3], CURS[len(countries) % 3]] + CURS))
+            ops.append(['country', 'K%d' % len(countries), cur])
+            countries.append(cur)
+        elif kind == 'sector':
+            if len(sectors) >= 7:
+                continue
+            ci = draw(st.sampled_from(list(range(len(countries) - 1, -1, -1))))
+            ops.append(['sector', ci, 'S%d' % len(sectors)])
+            sectors.append(ci)
+        elif kind == 'flow':
+            a = draw(st.integers(0, len(sectors) - 1))
+            b = draw(st.sampled_from([x for x in range(len(sectors)) if x != a]))
+            amount = draw(st.sampled_from([econ.dec2(draw(st.integers(1, 3000))), '0.05*LAG_F + 1.0', '0.5*k + 2.0']))
+            ops.append(['flow', a, b, 'PAY%d' % flows, amount])
+            flows += 1
+        elif kind == 'gold':
+            si = draw(st.integers(0, len(sectors) - 1))
+            if any(o[0] == 'gold' and o[1] == si for o in ops):
+                continue
+            ops.append(['gold', si, econ.dec2(draw(st.integers(-500, 2000))), econ.dec2(draw(st.integers(0, 5000)))])
+    used = sorted(set(countries))
+    cross = any(o[0] == 'flow' and countries[sectors[o[1]]] != countries[sectors[o[2]]] for o in ops)
+    if not have_ext:
+        # somewhere before the end (a model with cross-currency flows needs it; otherwise it is simply unused)
+        ops.insert(draw(st.integers(0, len(ops))), ['ext'])
+    xr = {cur: draw(econ.path(K, 50, 300)) for cur in used if draw(gen.chance(4, 5))}
+    return {'ops': ops, 'xr': xr, 'horizon': K, 'cross': cross}
+
+
+def run_interleaved(spec):
+    from sfc_models.models import Model, Country
+    from sfc_models.sector import Sector
+    from sfc_models.external import ExternalSector
+    mod = Model()
+    K = spec['horizon']
+    countries, sectors = [], []
+    gold_sectors = []
+    late_join = False      # a country joined a currency after something had been booked for that currency
+    booked = set()
+    try:
+        for op in spec['ops']:
+            if op[0] == 'ext':
+                ExternalSector(mod)
+            elif op[0] == 'country':
+                if op[2] in booked:
+                    late_join = True
+                countries.append(Country(mod, op[1], currency=op[2]))
+            elif op[0] == 'sector':
+                sectors.append(Sector(countries[op[1]], op[2], 'plain sector', has_F=True))
+            elif op[0] == 'flow':
+                src, dst = sectors[op[1]], sectors[op[2]]
+                src.AddVariable(op[3], 'payment', op[4])
+                mod.RegisterCashFlow(src, dst, op[3])
+            elif op[0] == 'gold':
+                sec = sectors[op[1]]
+                sec.AddVariable('GOLDPURCHASES', 'gold bought this period', op[2])
+                mod.ExternalSector['GOLD'].SetGoldPurchases(sec, 'GOLDPURCHASES', float(op[3]))
+                gold_sectors.append(sec)
+                booked.add(sec.CurrencyZone.Currency)
+        for cur, vals in spec['xr'].items():
+            mod.ExternalSector['XR'].SetExogenous(cur, '[' + ', '.join(vals) + ']')
+        mod.MaxTime = K
+        mod.EquationSolver.MaxTime = 0
+        text = mod.main()
+    except Exception as ex:
+        raise Reject('construction or main() refused: %s' % type(ex).__name__)
+    try:
+        system = refsolve.parse_final(text)
+        sol = system.solve(K)
+    except refsolve.ParseProblem as ex:
+        raise Violation('C07/final-text-open', 'final equations of an interleaved construction are not closed: %s' % ex)
+    if not sol.ok():
+        raise Reject('reference solve: %r' % ([s_ for s_ in sol.status if s_ not in ('given', 'unique')][:1],))
+    ext = mod.ExternalSector
+    fx, xr = ext['FX'], ext['XR']
+    curs = [cz.Currency for cz in mod.CurrencyZoneList if cz.Currency != 'NUMERAIRE']
+    moved = False
+    first = 2 if gold_sectors else 1     # gold holdings start from an initial stock imposed at k=0
+    for k in range(first, K + 1):
+        v = sol.values[k]
+        tot = v[fx.GetVariableName('NET_NUMERAIRE')]
+        for cur in curs:
+            tot += v[fx.GetVariableName('NET_' + cur)] * v[xr.GetVariableName(cur)]
+        if tot != 0:
+            raise Violation('C07/fx-value-not-conserved', 'interleaved construction %r, period %d: sum of NET_c*XR_c + '
+                                                          'NET_NUMERAIRE = %s' % (spec['ops'], k, float(tot)))
+        if not gold_sectors and v[fx.GetVariableName('NET_NUMERAIRE')] != 0:
+            raise Violation('C07/numeraire-position', 'period %d: NET_NUMERAIRE = %s with paired flows only' %
+                            (k, float(v[fx.GetVariableName('NET_NUMERAIRE')])))
+        for cz in mod.CurrencyZoneList:
+            if cz.Currency == 'NUMERAIRE':
+                continue
+            fn = [s_.GetVariableName('F') for s_ in cz.GetSectors() if s_.HasF]
+            d = sum((v[f] - sol.values[k - 1][f] for f in fn), Fraction(0))
+            net = v[fx.GetVariableName('NET_' + cz.Currency)]
+            if d != 0:
+                moved = True
+            if d + net != 0:
+                raise Violation('C07/zone-vs-fx-position', 'interleaved construction %r, period %d, currency %s: change in '
+                                'financial assets %s + FX position %s != 0' % (spec['ops'], k, cz.Currency, float(d), float(net)))
+    labels = ['gold:%d' % len(gold_sectors), 'cross' if spec['cross'] else 'no-cross']
+    if late_join:
+        labels.append('country-joins-booked-currency')
+    return {'nontrivial': moved and (spec['cross'] or bool(gold_sectors)), 'labels': labels}
+
+
+FAMILIES = [Family('cross-currency', case, run, quick=320, thorough=10000),
+            Family('interleaved-construction', interleaved_case, run_interleaved, quick=640, thorough=20000)]
 
 MANIFEST_INFO = {
     'level_text': 'Generated-program exploration of multi-currency models with non-unit, time-varying exchange rates; the '
